@@ -252,9 +252,9 @@ def stepMark (cfg : Cfg) (st : Store) (now : Nat) (lock : Option Nat) (i : Nat) 
      | _ =>
        match stGet cfg.expInclusive st now k with
        | some _ =>
-         (match r.kind with
-          | .jti => (.done .used, st, unlock (cfg.markLocks r.kind) lock)
-          | .s2s => (.atPut false, st, lock))
+         -- before PutIfAbsent existed, validateS2SPresentationNonce stored the nonce again after a hit
+         if r.kind = .s2s && cfg.mark r.kind = .getThenPut then (.atPut false, st, lock)
+         else (.done .used, st, unlock (cfg.markLocks r.kind) lock)
        | none => (.atPut true, st, lock))
   | .atPut fresh => (.done (if fresh then .ok else .used), stPut st k e, unlock (cfg.markLocks r.kind) lock)
   | .done o => (.done o, st, lock)
